@@ -371,6 +371,18 @@ func C10(run *Run) {
 					rec.Add(stale)
 					run.Evals++
 				}
+				// ... and the list iterator caches with ordinary ListObjects requests (every hop gets cached)
+				for _, q := range reqs[:2] {
+					lo := &ListObjectsEv{Eng: combo, T: q.O.T, R: q.R, U: q.U, Ctx: q.Ctx}
+					env.RunListObjects(ctx, lo)
+					if IsPlainSubj(q.U) || !strings.Contains(combo, ":v2") {
+						rec.Add(struct {
+							*ListObjectsEv
+							Stale string `json:"stale"`
+						}{lo, "ok"})
+						run.Evals++
+					}
+				}
 			}
 			dels, wrs := flipWrite(r, cs, cur, pool)
 			if len(dels)+len(wrs) == 0 {
@@ -393,13 +405,15 @@ func C10(run *Run) {
 					run.Evals++
 					run.Nontrivial(hashOf([]any{cs.Model, SortedKeys(cur), q, combo}))
 				}
-				q := reqs[0]
-				lo := &ListObjectsEv{Eng: combo, T: q.O.T, R: q.R, U: q.U, Ctx: q.Ctx, HC: true}
-				env.RunListObjects(ctx, lo)
-				if IsPlainSubj(q.U) || !strings.Contains(combo, ":v2") {
-					rec.Add(lo)
-					run.Evals++
+				for _, q := range reqs[:2] {
+					lo := &ListObjectsEv{Eng: combo, T: q.O.T, R: q.R, U: q.U, Ctx: q.Ctx, HC: true}
+					env.RunListObjects(ctx, lo)
+					if IsPlainSubj(q.U) || !strings.Contains(combo, ":v2") {
+						rec.Add(lo)
+						run.Evals++
+					}
 				}
+				q := reqs[0]
 				lu := &ListUsersEv{Eng: combo, O: q.O, R: q.R, FT: "user", Ctx: q.Ctx, HC: true}
 				env.RunListUsers(ctx, lu)
 				rec.Add(lu)
